@@ -358,8 +358,23 @@ func genHistory(r *vh.Rand) string {
 	if r.Chance(1, 4) {
 		ae, ec = 3, 1
 	}
-	return fmt.Sprintf("sfh c=%s;pr=%s;m=%s;p=%s;ae=%d;ec=%d;t=%s", strings.Join(confs, "~"), hx(histProducts[r.Intn(len(histProducts))]),
-		hx(method), hx("/"+p), ae, ec, curTree)
+	// earlier requests served by the same module instance (answers discarded): the same path for another product, or
+	// other paths, at any point of the history
+	pre := "_"
+	if r.Chance(2, 3) {
+		var ps []string
+		for k := r.Range(1, 3); k > 0; k-- {
+			pp := "/" + p
+			if r.Chance(1, 3) {
+				e2 := curFiles[r.Intn(len(curFiles))]
+				pp = "/" + path.Base(e2.path)
+			}
+			ps = append(ps, fmt.Sprintf("%d.%s.%s", r.Range(0, n), hx(histProducts[r.Intn(len(histProducts))]), hx(pp)))
+		}
+		pre = strings.Join(ps, ",")
+	}
+	return fmt.Sprintf("sfh c=%s;pr=%s;m=%s;p=%s;ae=%d;ec=%d;t=%s;pre=%s", strings.Join(confs, "~"), hx(histProducts[r.Intn(len(histProducts))]),
+		hx(method), hx("/"+p), ae, ec, curTree, pre)
 }
 
 var aePool = []string{"", "gzip", "br", "gzip, br", "deflate, gzip, br", "GZIP", "Gzip,BR", "gzip;q=0", "gzip ;q=0", "gzip; q=0", "br ;q=0, gzip",
@@ -637,8 +652,15 @@ func render(resp *bfe_http.Response) string {
 
 func execHistory(op string) string {
 	f := strings.Split(op[4:], ";")
-	if len(f) != 7 {
+	if len(f) != 7 && len(f) != 8 {
 		return "bad-op"
+	}
+	pres := "_"
+	if len(f) == 8 {
+		var ok bool
+		if pres, ok = kv(f[7], "pre"); !ok {
+			return "bad-op"
+		}
 	}
 	cs, ok0 := kv(f[0], "c")
 	get := func(i int, k string) ([]byte, bool) {
@@ -726,7 +748,33 @@ func execHistory(op string) string {
 	req.Session = new(bfe_basic.Session)
 	req.Route.Product = string(product)
 	req.HttpRequest = hreq
-	ret, resp, err := mod_static.VerifServeHistory(ecs == "1", confs, req)
+	var pre []mod_static.VerifStaticPre
+	if pres != "_" {
+		for _, x := range strings.Split(pres, ",") {
+			q := strings.Split(x, ".")
+			if len(q) != 3 {
+				return "bad-op"
+			}
+			after, err := strconv.Atoi(q[0])
+			pp, k1 := vh.UnHex(q[1])
+			ppath, k2 := vh.UnHex(q[2])
+			if err != nil || !k1 || !k2 {
+				return "bad-op"
+			}
+			ph, err := bfe_http.NewRequest("GET", "http://"+hitHost+"/", nil)
+			if err != nil {
+				return "err:newrequest"
+			}
+			ph.URL.Path = string(ppath)
+			ph.Header = hreq.Header
+			pr := new(bfe_basic.Request)
+			pr.Session = new(bfe_basic.Session)
+			pr.Route.Product = string(pp)
+			pr.HttpRequest = ph
+			pre = append(pre, mod_static.VerifStaticPre{After: after, Req: pr})
+		}
+	}
+	ret, resp, err := mod_static.VerifServeHistory2(ecs == "1", confs, pre, req)
 	if err != nil {
 		return "err:cond"
 	}
